@@ -10,6 +10,7 @@ source order and without duplicates, the effects on `self`:
     p:<name>   assignment to a name that is a property of the class (runs its setter)
     c:<name>   call of self.<name>(...)
     g:<name>   read of self.<name> where <name> is a property (runs its getter)
+    x:<name>   self.__dict__.pop("<name>", None): invalidation of a cached_property
 and for every property setter whether its body has the shape
     if value > 0 (or >= 0): <body> else: raise ValueError(...)
 Anything it cannot classify (setattr, __dict__, exec, global state, del) is a TranslationError.
@@ -101,6 +102,11 @@ class MethodEffects(ast.NodeVisitor):
         if isinstance(f, ast.Name) and f.id in ("setattr", "delattr", "exec", "eval"):
             raise TranslationError("call of %s" % f.id)
         ch = self_attr_chain(f)
+        # self.__dict__.pop("<name>", None): invalidation of a cached_property
+        if (ch == ["__dict__", "pop"] and len(node.args) == 2 and isinstance(node.args[0], ast.Constant)
+                and isinstance(node.args[0].value, str) and isinstance(node.args[1], ast.Constant) and node.args[1].value is None):
+            self.add("x:" + node.args[0].value)
+            return
         if ch is not None and len(ch) == 1:
             self.add("c:" + ch[0])
         elif ch is not None and len(ch) >= 2:
